@@ -2692,6 +2692,34 @@ pub mod verif_hooks {
         }
     }
 
+    /// A `Connection` object over an in-memory pipe whose peer is gone. Nothing can be sent on it;
+    /// it only serves as a distinguishable token for harnesses that drive the execution loop
+    /// with synthetic attempts. Must be called from within a tokio runtime.
+    pub(crate) fn dummy_connection(port: u16) -> Arc<Connection> {
+        let (client, _server) = tokio::io::duplex(64);
+        let VRouter {
+            handle,
+            _worker,
+            error_receiver: _,
+        } = spawn_router(client, None, None, false);
+        let cfg = verif_connection_config();
+        let connect_address: SocketAddr = SocketAddr::from(([127, 0, 0, 1], port));
+        let config = cfg.to_host_connection_config(&UntranslatedEndpoint::ContactPoint(
+            crate::cluster::node::ResolvedContactPoint {
+                address: connect_address,
+            },
+        ));
+        Arc::new(Connection {
+            _worker_handle: _worker,
+            connect_address,
+            config,
+            features: Default::default(),
+            router_handle: handle,
+            #[cfg(test)]
+            socket: socket2::Socket::new(socket2::Domain::IPV4, socket2::Type::STREAM, None).unwrap(),
+        })
+    }
+
     impl VRouter {
         /// `RouterHandle::send_request` with a raw body; `Err` carries the error's Debug text.
         pub async fn send_raw(&self, body: &[u8]) -> Result<RawResponse, String> {
